@@ -63,7 +63,7 @@ func runStartFailCase(c sfCase, bin, tmp string) map[string]interface{} {
 		} else {
 			hc.Allowed, hc.LegacyVersion = []string{"netrpc", "grpc"}, 7
 		}
-	case "silent":
+	case "silent", "tinytimeout":
 		pc.MockThen = "idle"
 	case "partial":
 		pc.MockLine, pc.MockThen = "1|1|unix|/nonexistent/ha", "idle"
@@ -73,6 +73,11 @@ func runStartFailCase(c sfCase, bin, tmp string) map[string]interface{} {
 		pc.MockThen = "close"
 	}
 	p := vp.NewPair(bin, hc, pc, nil, nil)
+	if c.Cause == "tinytimeout" {
+		// a start timeout shorter than it takes to spawn the process: the start context may already have
+		// expired when the runner comes back from launching it
+		p.Config.StartTimeout = time.Duration(1+c.Var%3) * time.Nanosecond
+	}
 	t0 := time.Now()
 	_, err := p.Client.Start()
 	out["start_ms"] = time.Since(t0).Milliseconds()
